@@ -9,6 +9,8 @@ rows = []
 for f in sorted(glob.glob("/verif/seeded/*/meta.json")):
     m = json.load(open(f)); i = f.split("/")[3]; d = m.get("detection", {})
     also = m.get("also_caught_by") or ""
+    if m.get("rebase_note"):
+        also = (also + " ; " if also else "") + m["rebase_note"][:160]
     rows.append(f"| {i} | {cut(m.get('summary'), 170)} | {cut(m.get('needs_to_manifest'), 130)} | `./check {d.get('check')} {d.get('tier', 'quick')}` exit {d.get('exit_code')}{(' ; ' + also) if also else ''} |")
 table = "| Seed | Change (independently written; passes the 74 pinned tests) | Needs, to manifest | Caught by |\n|---|---|---|---|\n" + "\n".join(rows)
 p = "/verif/DESIGN.md"
